@@ -36,14 +36,29 @@ Print Assumptions C13_underlying_closed_once.
 
 (* A handle's Close changes only that handle's context / closed flag, and a handle that is still
    open is fully usable in EVERY reachable state (whatever its siblings did): its writes reach the
-   underlying connection, which is open, and a read on it never returns an error. *)
+   underlying connection, which is open, and a read on it never returns an error other than the
+   expiry of its own read deadline. *)
 Theorem C13_sibling_unaffected : forall s, SC.reach s ->
   (forall l s' h', SC.step s l s' -> SC.actor l <> Some h' ->
      SC.hpcs s' h' = SC.hpcs s h' /\ SC.cancelled s' h' = SC.cancelled s h') /\
   (forall h, SC.hpcs s h = SC.HOpen ->
-     SC.write_outcome s h = SC.WOk /\ (forall k r, SC.rds s k = SC.RRet h r -> r = SC.ROk)).
+     SC.write_outcome s h = SC.WOk /\
+     (forall k r, SC.rds s k = SC.RRet h r -> r = SC.ROk \/ r = SC.RTimeout)).
 Proof. exact SCP.sibling_unaffected. Qed.
 Print Assumptions C13_sibling_unaffected.
+
+(* ... where a timeout is the handle's OWN read deadline: a read returns os.ErrDeadlineExceeded
+   only if it was started while that handle's deadline was already in the past; a read started with
+   no deadline or with one far in the future parks with (a context derived from) the handle's
+   context - so that handle's Close fails it (C13_closed_handle_io_fails applies to every RWait). *)
+Theorem C13_timeout_only_own_deadline : forall s l s' k h, SC.step s l s' ->
+  (l = SC.LReadRet k h SC.RTimeout -> SC.rds s k = SC.RWaitPast h) /\
+  (SC.rds s' k = SC.RWaitPast h ->
+     SC.rds s k = SC.RWaitPast h \/ (SC.rds s k = SC.RIdle /\ SC.rdl s h = SC.DPast /\ SC.cancelled s h = false)) /\
+  (SC.rds s' k = SC.RWait h ->
+     SC.rds s k = SC.RWait h \/ (SC.rds s k = SC.RIdle /\ SC.rdl s h <> SC.DPast /\ SC.cancelled s h = false)).
+Proof. exact SCP.timeout_only_own_deadline. Qed.
+Print Assumptions C13_timeout_only_own_deadline.
 
 (* Closing a handle fails that handle's own pending and future I/O: from the cancel step on its
    writes return ErrClosedPipe, a read blocked on it can return ErrClosedPipe, a new read fails at
